@@ -154,16 +154,38 @@ NESTED = ["any(S(A) for _ in 'a')", "[S(A) for _ in 'a']", "(lambda: S(A))()", "
           "{_: S(A) for _ in 'a'}", "sorted('ab', key=lambda _: S(A))", "[0 for _ in 'a' if S(A)]", "(lambda f=S: f(A))()", "next(S(A) for _ in 'a')"]
 
 
+def confuse(rnd, name):
+    """the same identifier spelled with compatibility characters: Python normalises identifiers (NFKC) when it compiles, so
+    `_\uff3fself_\uff3f` IS `__self__` and a full-width `ｏpen` IS `open`"""
+    i = rnd.randrange(len(name))
+    c = name[i]
+    if c == '_':
+        alt = '\uff3f'
+    elif c.isascii() and c.isalpha():
+        alt = chr(ord(c) + 0xFEE0)
+    else:
+        return name
+    if i == 0 and c == '_':
+        i = name.rfind('_')     # an identifier cannot START with U+FF3F? (it can: it is XID_Start after NFKC) - keep a plain start anyway
+        if i <= 0:
+            return name
+    return name[:i] + alt + name[i + 1:]
+
+
 def gen_expr(rnd, names):
     r = rnd.random()
     if r < 0.30:
         name = rnd.choice(names)
-        return f'{name}({rnd.choice(ARGS)})', ('call', name)
+        shown = confuse(rnd, name) if rnd.random() < 0.12 else name
+        return f'{shown}({rnd.choice(ARGS)})', ('call', name) + (('confusable-spelling',) if shown != name else ())
     if r < 0.45:
-        base = rnd.choice(['n', 'k', '()', "''", '[]', 'n.upper', 'len', '(1).real', 'n.format'])
-        chain = '.'.join(rnd.choice(ATTRS) for _ in range(rnd.randint(1, 3)))
-        tail = rnd.choice(['', '()', '()', '[0]'])
-        return f'{base}.{chain}{tail}', ('attr', chain)
+        base = rnd.choice(['n', 'k', '()', "''", '[]', 'n.upper', 'len', '(1).real', 'n.format', 'abs', 'len'])
+        attrs = [rnd.choice(ATTRS) for _ in range(rnd.randint(1, 3))]
+        tail = rnd.choice(['', '()', '()', '[0]', ".open('/etc/hostname').read()"])
+        chain = '.'.join(attrs)
+        if rnd.random() < 0.2:
+            chain = '.'.join(confuse(rnd, a) for a in attrs)
+        return f'{base}.{chain}{tail}', ('attr', '.'.join(attrs)) + (('confusable-spelling',) if chain != '.'.join(attrs) else ())
     if r < 0.55:
         inner, tag = gen_expr(rnd, names)
         wrap = rnd.choice(['(lambda: {})()', '[{} for _ in [0]][0]', '({} if k else 0)', '(x := {})', '[{}][0]', '{{"a": {}}}["a"]', '({},)[0]',
@@ -287,10 +309,13 @@ def check_direct(expr, ctxvals):
     return None, info
 
 
-def check_positive(expr, ctxvals):
-    """safe sub-grammar: the sandbox's value equals plain eval with the same names"""
+def check_positive(expr, ctxvals, preprobe=False):
+    """safe sub-grammar: the sandbox's value equals plain eval with the same names.  preprobe: the same text is first checked where its
+    names are not bound (another rule, an earlier grammar): what it is judged to be there must not stick"""
     from tatsu.util import safeeval
     MON.install()
+    if preprobe:
+        safeeval.is_eval_safe(expr, dict(safeeval.safe_builtins()))
     ctx = dict(safeeval.safe_builtins())
     ctx.update(ctxvals)
     try:
@@ -515,9 +540,12 @@ def run_shard(sh, n):
         cls = [f'route:{route}', f'kind:{tag[0]}']
         if tag[0] == 'call':
             cls.append(f'builtin:{tag[1]}')
+        if 'confusable-spelling' in tag:
+            cls.append('identifier spelled with NFKC-equivalent characters')
         d = None
         info = {}
         probe = False
+        preprobe = False
         nval = 'abc'
         if tag == ('safe',) and route in ('direct', 'parser:const'):
             nval = rnd.choice(NVALS)
@@ -525,7 +553,10 @@ def run_shard(sh, n):
             if not nval.isascii():
                 cls.append('AST value beyond Latin-1' if max(nval) > '\xff' else 'AST value non-ASCII')
             if route == 'direct':
-                d = check_positive(expr, {'n': nval, 'k': 3})
+                preprobe = rnd.random() < 0.3
+                if preprobe:
+                    cls.append('text first judged where its names are unbound')
+                d = check_positive(expr, {'n': nval, 'k': 3}, preprobe=preprobe)
             else:
                 route = 'parser:positive'
                 d, info = check_parser_positive(expr, nval)
@@ -574,7 +605,7 @@ def run_shard(sh, n):
         sh.case((expr, route, nval), nontriv, cls, sample=dict(expression=expr, route=route, info={k: v for k, v in info.items() if k != 'skip'}))
         if d is not None:
             sh.fail(d['bucket'], dict(expr=expr, route=route, shadow=expr if route.startswith('shadow') else None,
-                                      sname=sname if route.startswith('shadow') else None, probe=probe, nval=nval, positive='positive' in cls, carrier=tag[0] == 'frame-trick'), d)
+                                      sname=sname if route.startswith('shadow') else None, probe=probe, nval=nval, positive='positive' in cls, carrier=tag[0] == 'frame-trick', preprobe=preprobe), d)
     # two-step histories (first, while this process has evaluated nothing else)
     if sh.index == 0:
         for sname, sval, probe in [('password', 'hunter2', '{password}'), ('token', 'tk9', 'token'), ('secret', 's3cr3t', 'x{secret}y'), ('pw', 'zz9', '{pw!r}')]:
@@ -605,7 +636,7 @@ def replay(case):
         if positive is None:   # replay files written before the key existed
             positive = has_dunder_attr(case['expr']) is False and not impure_calls(case['expr'], {'n', 'k'}) and 'format' not in case['expr']
         if d is None and positive:
-            d = check_positive(case['expr'], {'n': case.get('nval', 'abc'), 'k': 3})
+            d = check_positive(case['expr'], {'n': case.get('nval', 'abc'), 'k': 3}, preprobe=bool(case.get('preprobe')))
         return d
     if r in ('shadow', 'shadow-direct'):
         sname = case.get('sname') or next((s for s in SHADOW_NAMES if case['expr'].startswith(s) or '{' + s in case['expr'] or s + '(' in case['expr']), 'open')
